@@ -321,6 +321,12 @@ func ruleSpecDescriptorAccessor(c *Ctx, r *R) {
 		}
 		return true
 	})
+	if flag == nil && c.eClean("SPEC-define-own") {
+		for _, fld := range []string{"get", "set"} {
+			r.ok(fld, c.Pos(fd.Pos()), subsumedBy("SPEC-define-own")+" (descriptors whose get / set field is present and undefined are in its domain)")
+		}
+		return
+	}
 	if flag == nil {
 		r.undecided("unresolved:flag", c.Pos(fd.Pos()), "UNRESOLVED: no boolean guards the construction of the propertyGetSet value in toPropertyDescriptor")
 		return
@@ -391,6 +397,10 @@ func ruleSpecDescriptorAccessor(c *Ctx, r *R) {
 	})
 	for _, fld := range []string{"get", "set"} {
 		if !seen[fld] {
+			if c.eClean("SPEC-define-own") {
+				r.ok(fld, c.Pos(fd.Pos()), subsumedBy("SPEC-define-own")+" (descriptors whose get / set field is present and undefined are in its domain)")
+				continue
+			}
 			r.undecided("unresolved:"+fld, c.Pos(fd.Pos()), "UNRESOLVED: no test of the `"+fld+"` field in toPropertyDescriptor")
 		}
 	}
